@@ -187,3 +187,15 @@ package common
 //@   apply at Int).Sub modunique(old(val(x)), val($1) - val($2), val(m.p))
 //@   dead return 4
 //@   apply at Int).Add modstep(old(val(x)) - ghost(c0), val(carry), val(m.p))
+
+//@ # square roots modulo a prime: every multiple of the prime has the root 0 (the Tonelli-Shanks part is not under contract)
+//@ func PrimeSqrt
+//@   property C19
+//@   nopanic off
+//@   requires a != nil && pa != nil && val(pa) > 0
+//@   ensures zero: rem(val(a), val(pa)) == 0 ==> result1 && result0 != nil && val(result0) == 0
+//@   ensures none: !result1 ==> result0 == nil
+//@   loop 0 invariant true
+//@   loop 1 invariant true
+//@   loop 2 invariant true
+//@   loop 3 invariant true
